@@ -41,6 +41,11 @@ def multiline_atom(q):
     return any(type(n).__name__ in ("Phrase", "Regex") and "\n" in n.value for n in gen.nodes(t))
 
 
+#: one long-lived printer per setting and per worker process: it sees a whole history of queries (determinism = the text does not
+#: depend on what the same printer printed before)
+SHARED = {}
+
+
 def check(q):
     fails = []
     try:
@@ -60,6 +65,16 @@ def check(q):
             continue
         if s != s2 or not isinstance(s, str):
             fails.append({"input": q, "settings": [indent, max_len, inline], "multiline_atom": multiline_atom(q), "observation": "not deterministic"})
+        key = (indent, max_len, inline)
+        if key not in SHARED:
+            SHARED[key] = Prettifier(indent=indent, max_len=max_len, inline_ops=inline)
+        try:
+            s3 = SHARED[key](t)
+        except Exception as e:  # noqa: BLE001
+            s3 = "raised %r" % (e,)
+        if s3 != s:
+            fails.append({"input": q, "settings": [indent, max_len, inline], "multiline_atom": multiline_atom(q), "signature": "history",
+                          "observation": "a printer that has printed other queries before gives %r, a fresh one %r" % (s3, s)})
         try:
             back = parser.parse(s)
         except Exception as e:  # noqa: BLE001
@@ -83,8 +98,12 @@ def main():
         qs.append(render(seq, False))
         if any(t in LONG for t in seq):
             qs.append(render(seq, True))
+        if i % 3 == 2 and any(t in gen.TRICKY for t in seq):
+            qs.append(gen.render_tricky(seq, i))
     qs += ["a AND (b OR (c AND (d OR (e AND (f OR g)))))", "f:(alpha beta gamma) OR g:(delta AND epsilon AND zeta) OR NOT eta^2",
            "(a OR b) AND (c OR d) AND (e OR f) AND [1 TO 2] AND \"p q\"~3", "\"a\nb\" AND c", "/x\ny/ OR d", "\"line one\nline two\" \"three\"",
+           "[1 TO 5]", "{1 TO 5}", "[1 TO 5}", "{1 TO 5]", ">=18", ">18", "<=18", "<18", "f:[a TO b] AND g:{a TO b}", "f:{a TO b} AND g:[a TO b]",
+           "a~", "a~0.5", "a^1", "a^", "\"p q\"~", "\"p q\"~1",
            "a b c d e f g h i j k l m n o p", "f:\"a  b\" AND c", "/x  y/ OR d", "\"a\tb\" c OR \"  lead\" AND \"trail  \"", "a OR b OR a",
            "k AND l OR k AND l", "a  b AND c d", "f:(aaa bbb AND ccc)", "g:(\"u  v\"~2 w) x",
            "x:(y:(z:(w OR v) AND u) AND t)", "+alpha -beta NOT gamma delta^3 epsilon~2"]
@@ -92,8 +111,8 @@ def main():
     failures = [f for r in res for f in r[1]]
     rest, hit = classify(failures, p.get("known", []))
     emit({"ok": not rest, "evaluations": sum(r[0] for r in res), "distinct_nontrivial": len(qs),
-          "rule": "queries = accepted token sequences of <= %d tokens with short texts, and with long texts when they contain a term or "
-                  "phrase, + 17 hand-picked (deep nesting, line breaks and runs of blanks inside phrases/regexes, repeated operands); x 18 settings; distinct = queries" % p["max_tokens"],
+          "rule": "queries = accepted token sequences of <= %d tokens with short texts, with long texts when they contain a term or phrase, every third one with texts that probe token boundaries (escapes, quotes / operators inside phrases), "
+                  "+ 33 hand-picked (deep nesting, line breaks and runs of blanks inside phrases/regexes, repeated operands, look-alike pairs that differ in inclusiveness / implicit numerals only); also printed by a long-lived printer per setting (history); x 18 settings; distinct = queries" % p["max_tokens"],
           "bound": "token sequences <= %d x 18 settings" % p["max_tokens"],
           "samples": [{"query": "a AND (b OR c)", "settings": [4, 10, False], "pretty": Prettifier(4, 10)(parser.parse("a AND (b OR c)"))}],
           "failures": rest[:40], "known": hit, "known_covered": len(failures) - len(rest)})
